@@ -30,6 +30,7 @@ fn main() {
         "keykeeper" => vdrv::keykeeper::main(),
         "robust" => vdrv::robust::main(),
         "status" => vdrv::status::main(),
+        "lifecycle" => vdrv::lifecycle::main(),
         other => {
             eprintln!("verif-agent: unknown VERIF_CMD '{}'", other);
             2
